@@ -410,7 +410,8 @@ class Ref:
             self.surfaces[e["orig"]]["constants"][e["index"]] = Fraction(e["value"])
         elif k == "density":
             c = self.cells[e["orig"]]
-            c["density"] = Fraction(e["value"]) * (1 if e["atom"] else -1)
+            mag = abs(c["density"]) if e["value"] == "same" else Fraction(e["value"])     # "same": the number it has now
+            c["density"] = mag * (1 if e["atom"] else -1)
         elif k == "importance":
             self.cells[e["orig"]]["imp"][e["particle"].upper()] = Fraction(e["value"])
         elif k == "volume":
